@@ -126,7 +126,7 @@ func Prop(c Case, x *h.Ctx) *h.Violation {
 		}
 		hd, ok := rio.ParseHeader(data[offs[i]:ends[i]])
 		if !ok {
-			return h.V("damage/harness-header", "independent decoder cannot parse header of record %d at %d", i, offs[i])
+			panic(h.Infra{Msg: "harness decoder out of step with the on-disk format (not a verdict): " + fmt.Sprintf("independent decoder cannot parse header of record %d at %d", i, offs[i])})
 		}
 		hdrs[i] = hd
 	}
@@ -359,7 +359,7 @@ func PropMulti(m Multi, x *h.Ctx) *h.Violation {
 	}
 	hd, ok := rio.ParseHeader(data[offs[ri]:end])
 	if !ok {
-		return h.V("damage/harness-header", "independent decoder cannot parse header of record %d", ri)
+		panic(h.Infra{Msg: "harness decoder out of step with the on-disk format (not a verdict): " + fmt.Sprintf("independent decoder cannot parse header of record %d", ri)})
 	}
 	buf := append([]byte{}, data...)
 	desc := ""
